@@ -707,7 +707,8 @@ def run_impl(case):
         links_after = Sym('none')
     obs = [[Sym('texts')] + texts, [Sym('loads')] + [_load_obs(t) for t in texts] + [_load_obs(concat)],
            [Sym('links'), Sym('not-key-denoted') if case['tag'] == 'null-key-link' else _link_pairs(m), links_after], [Sym('round2'), _second_text(t_db, x.serialize_database),
-                                                         _second_text(t_inst, x.serialize_instances)]]
+                                                         _second_text(t_inst, x.serialize_instances)],
+           [Sym('tokens')] + [[gen_schema.real_tokens(x, t), Sym('same')] for t in (t_db, f_db)]]
     if case.get('regen'):
         # last: this changes the in-memory model
         try:
@@ -773,6 +774,10 @@ def model_line(case):
 
 
 def model_obs(case, ans):
+    if isinstance(ans, list) and len(ans) == 5 and isinstance(ans[4], list):
+        # beyond its length limit the regex engine is not run: that stream is not compared there
+        ans = ans[:4] + [[ans[4][0]] + [[p[0], Sym('same')] if isinstance(p, list) and len(p) == 2 and str(p[1]) == 'skipped' else p
+                                        for p in ans[4][1:]]]
     if case['tag'] == 'null-key-link' and isinstance(ans, list) and len(ans) > 2 and isinstance(ans[2], list) and len(ans[2]) == 3:
         # the family relates instances across a key that is the null value: the in-memory links are by construction NOT the
         # links the key values denote (hypothesis KeysResolve of the theorems fails), so that leg is not compared
